@@ -72,7 +72,12 @@ def _group(job):
     else:
         ns = sorted({1, 2, m, m + 1, m + 2, 2 * m, 2 * m + 1, 2 * m + 2, 3 * m + 1, 4 * m + (cm % 3), 6 * m + 3} | {max(1, (m * q) // 4 + 1) for q in (5, 9, 14)})
     ns = [n for n in ns if 1 <= n <= 700]
-    return {"job": [cm, c8], "m": m, "runs": [_one(cm, c8, n, m) for n in ns]}
+    runs = []
+    for n in ns:
+        runs.append(_one(cm, c8, n, m))
+        if runs[-1]["status"] == "inconclusive":
+            break       # the wall-clock guard fired: the other n of this cost vector would take as long
+    return {"job": [cm, c8], "m": m, "runs": runs}
 
 
 def seq_ones(payload):
